@@ -50,6 +50,7 @@ ALPHA = {
     'let_const': 1, 'let_rename': 1, 'let_compose': 2, 'add_expr': 2,
     'drop': 4, 'gc': 3, 'swap': 2, 'sift': 1, 'reorder_to': 1,
     'declare': 1, 'incref': 1, 'decref': 1, 'funcop': 2, 'traverse': 1,
+    'file_roundtrip': 4, 'repeat': 2,
 }
 
 
@@ -110,7 +111,8 @@ def run_catalogue(spec, out):
         for pos in range(spec['positions']):
             for a in (pos, pos + 7):
                 ops = prefix + [['bad', kind, a, pos], ['gc', 1],
-                                ['apply', 1, 2, 3, 1], ['sift']]
+                                ['apply', 1, 2, 3, 1],
+                                ['file_roundtrip', 0, a], ['sift']]
                 hist = dict(cfg=cfg, ops=ops)
                 if spec.get('shutdown'):
                     hist['shutdown'] = a
